@@ -11,3 +11,5 @@ for c in $checks; do
   echo "$id vs $c: $out"
 done
 git -C /repo worktree remove --force $wt
+# the run above regenerated lean/WfModel/Gen*.lean from the patched tree: regenerate from /repo again
+(cd /verif && /venv/bin/python -m harness.translate >/dev/null 2>&1)
